@@ -212,14 +212,15 @@ theorem adjPairs_snoc_fst {α : Type} : ∀ (S : List α) (t : α), (adjPairs (S
       simp only [List.cons_append, adjPairs, List.map_cons] at this ⊢
       rw [this]
 
-/-- the abstract step: from "nothing lies strictly between `a` and its successor `b'`" to the spec's `stretch` -/
+/-- the abstract step: from "no cut lies between `a` and its successor `b'`" to the spec's `stretch` -/
 theorem stretch_from_facts {n : Nat} (hn : 0 < n) {S : List Overhang} {fs rs : List Nat}
     (hfs : ∀ c, c ∈ fs ↔ ∃ o ∈ S, o.forward = true ∧ o.position = (c : Int))
     (hrs : ∀ c, c ∈ rs ↔ ∃ o ∈ S, o.forward = false ∧ o.position = (c : Int))
-    (hinj : ∀ c ∈ S, ∀ d ∈ S, c.position = d.position → c = d)
+    (hkey : ∀ c ∈ S, ∀ d ∈ S, c.position = d.position → c.forward = d.forward → c = d)
     (hrange : ∀ o ∈ S, 0 ≤ o.position ∧ o.position < n)
     {a b' : Overhang} (ha : a ∈ S) (hb' : b' ∈ S) (haf : a.forward = true) {δ : Nat}
-    (K : ∀ c ∈ S, c ≠ a → c ≠ b' → δ < dist n a.position.toNat c.position.toNat)
+    (K : ∀ c ∈ S, c ≠ a → c ≠ b' → δ ≤ dist n a.position.toNat c.position.toNat ∧
+      (c.forward = true → b'.forward = false → δ < dist n a.position.toNat c.position.toNat))
     (D : b' ≠ a → dist n a.position.toNat b'.position.toNat = δ)
     (E : b' = a → n ≤ δ) :
     stretch n fs rs a.position.toNat = if b'.forward = false then some δ else none := by
@@ -236,14 +237,14 @@ theorem stretch_from_facts {n : Nat} (hn : 0 < n) {S : List Overhang} {fs rs : L
       have hr' : r = c.position.toNat := by omega
       by_cases hcb : c = b'
       · subst hcb; rw [hr', D hne]
-      · have := K c hc hca hcb
-        rw [hr']; omega
+      · have := (K c hc hca hcb).1
+        rw [hr']; exact this
     · intro c' hc' hne'
       obtain ⟨c, hc, hcf, hcp⟩ := (hfs c').1 hc'
       have hr' : c' = c.position.toNat := by omega
       have hca : c ≠ a := by rintro rfl; exact hne' hr'
       have hcb : c ≠ b' := by rintro rfl; rw [hcf] at hbf; exact absurd hbf (by simp)
-      rw [hr']; exact K c hc hca hcb
+      rw [hr']; exact (K c hc hca hcb).2 hcf hbf
   · rename_i hbf
     have hbf' : b'.forward = true := by simpa using hbf
     rw [Option.eq_none_iff_forall_ne_some]
@@ -254,7 +255,7 @@ theorem stretch_from_facts {n : Nat} (hn : 0 < n) {S : List Overhang} {fs rs : L
     have hr' : r = c.position.toNat := by omega
     have hca : c ≠ a := by rintro rfl; rw [haf] at hcf; exact absurd hcf (by simp)
     have hcb : c ≠ b' := by rintro rfl; rw [hcf] at hbf'; exact absurd hbf' (by simp)
-    have hK := K c hc hca hcb
+    have hK := (K c hc hca hcb).1
     rw [← hr', hrd] at hK
     by_cases hba : b' = a
     · have := E hba
@@ -263,38 +264,52 @@ theorem stretch_from_facts {n : Nat} (hn : 0 < n) {S : List Overhang} {fs rs : L
     · have hD := D hba
       have hpne : b'.position.toNat ≠ a.position.toNat := by
         intro h
-        exact hba (hinj b' hb' a ha (by omega))
+        exact hba (hkey b' hb' a ha (by omega) (by rw [hbf', haf]))
       have := hall b'.position.toNat ((hfs _).2 ⟨b', hb', hbf', by omega⟩) hpne
       omega
 
-/-- what adjacency in the sorted list `S ++ [first + n]` means on the circle -/
+theorem keyLt_bump_snoc {n : Nat} {s0 : Overhang} {S' : List Overhang}
+    (hs : (s0 :: S').Pairwise KeyLt) (hrange : ∀ o ∈ s0 :: S', 0 ≤ o.position ∧ o.position < n) :
+    ((s0 :: S') ++ [bump n s0]).Pairwise KeyLt := by
+  have hr0 := hrange s0 (by simp)
+  rw [List.pairwise_append]
+  refine ⟨hs, by simp, ?_⟩
+  intro x hx y hy
+  have : y = bump n s0 := by simpa using hy
+  subst this
+  have := hrange x hx
+  exact Or.inl (by show x.position < s0.position + n; omega)
+
+/-- what adjacency in the key-sorted list `S ++ [first + n]` means on the circle (`a` a forward overhang) -/
 theorem adjacent_facts {n : Nat} {s0 : Overhang} {S' : List Overhang}
-    (hs : (s0 :: S').Pairwise PosLt) (hrange : ∀ o ∈ s0 :: S', 0 ≤ o.position ∧ o.position < n)
-    {a b : Overhang} (hab : (a, b) ∈ adjPairs ((s0 :: S') ++ [bump n s0])) :
-    a ∈ s0 :: S' ∧ a.position < b.position ∧ b.position ≤ 2 * (n : Int) ∧
+    (hs : (s0 :: S').Pairwise KeyLt) (hrange : ∀ o ∈ s0 :: S', 0 ≤ o.position ∧ o.position < n)
+    {a b : Overhang} (hab : (a, b) ∈ adjPairs ((s0 :: S') ++ [bump n s0])) (haf : a.forward = true) :
+    a ∈ s0 :: S' ∧ a.position ≤ b.position ∧ b.position ≤ 2 * (n : Int) ∧
     ∃ b' ∈ s0 :: S', b'.forward = b.forward ∧
       (∀ c ∈ s0 :: S', c ≠ a → c ≠ b' →
-        (b.position - a.position).toNat < dist n a.position.toNat c.position.toNat) ∧
+        (b.position - a.position).toNat ≤ dist n a.position.toNat c.position.toNat ∧
+        (c.forward = true → b'.forward = false →
+          (b.position - a.position).toNat < dist n a.position.toNat c.position.toNat)) ∧
       (b' ≠ a → dist n a.position.toNat b'.position.toNat = (b.position - a.position).toNat) ∧
       (b' = a → n ≤ (b.position - a.position).toNat) := by
   have hr0 := hrange s0 (by simp)
   have htp : (bump n s0).position = s0.position + n := rfl
-  have hO : ((s0 :: S') ++ [bump n s0]).Pairwise PosLt := by
-    rw [List.pairwise_append]
-    refine ⟨hs, by simp, ?_⟩
-    intro x hx y hy
-    have : y = bump n s0 := by simpa using hy
-    subst this
-    have := hrange x hx
-    unfold PosLt; rw [htp]; omega
+  have hO := keyLt_bump_snoc hs hrange
   obtain ⟨l1, l2, hdec⟩ := adjPairs_decomp _ a b hab
   rw [hdec] at hO
   obtain ⟨_, h2, h3⟩ := List.pairwise_append.1 hO
   obtain ⟨h4, h5⟩ := List.pairwise_cons.1 h2
   obtain ⟨h6, _⟩ := List.pairwise_cons.1 h5
-  have habp : a.position < b.position := h4 b (by simp)
-  have hl1 : ∀ c ∈ l1, c.position < a.position := fun c hc => h3 c hc a (by simp)
-  have hl2 : ∀ c ∈ l2, b.position < c.position := fun c hc => h6 c hc
+  have habk : KeyLt a b := h4 b (by simp)
+  have habp : a.position ≤ b.position := by unfold KeyLt at habk; omega
+  -- an element before `a` lies strictly to the left of it (`a` is forward)
+  have hl1 : ∀ c ∈ l1, c.position < a.position := by
+    intro c hc
+    have : KeyLt c a := h3 c hc a (by simp)
+    rcases this with h | ⟨_, _, h⟩
+    · exact h
+    · rw [haf] at h; exact absurd h (by simp)
+  have hl2 : ∀ c ∈ l2, KeyLt b c := fun c hc => h6 c hc
   have hmemO : ∀ c, c ∈ (s0 :: S') ++ [bump n s0] ↔ c ∈ l1 ∨ c = a ∨ c = b ∨ c ∈ l2 := by
     intro c; rw [hdec]; simp
   have hmax : ∀ c ∈ (s0 :: S') ++ [bump n s0], c.position ≤ s0.position + n := by
@@ -308,11 +323,20 @@ theorem adjacent_facts {n : Nat} {s0 : Overhang} {S' : List Overhang}
   have haS : a ∈ s0 :: S' := by
     rcases List.mem_append.1 haO with h | h
     · exact h
-    · have : a = bump n s0 := by simpa using h
+    · -- `a` would be the last element, yet `b` follows it
+      have hat : a = bump n s0 := by simpa using h
       have hb := hmax b hbO
-      rw [this, htp] at habp; omega
+      rcases habk with h' | ⟨h', _, hbf⟩
+      · rw [hat, htp] at h'; omega
+      · -- same position as the last element: `b` is the last element itself or below `n`
+        rcases List.mem_append.1 hbO with hbS | hbT
+        · have := hrange b hbS; rw [hat, htp] at h'; omega
+        · have hbt : b = bump n s0 := by simpa using hbT
+          rw [hat] at haf
+          rw [hbt] at hbf
+          rw [haf] at hbf; exact absurd hbf (by simp)
   have hra := hrange a haS
-  have hhead : ∀ c ∈ s0 :: S', c = s0 ∨ s0.position < c.position := by
+  have hhead : ∀ c ∈ s0 :: S', c = s0 ∨ KeyLt s0 c := by
     intro c hc
     rcases List.mem_cons.1 hc with h | h
     · exact Or.inl h
@@ -326,35 +350,54 @@ theorem adjacent_facts {n : Nat} {s0 : Overhang} {S' : List Overhang}
       have hrc := hrange c hc
       rcases (hmemO c).1 (List.mem_append_left _ hc) with h | h | h | h
       · have := hl1 c h
-        rw [dist_of_gt (by omega) (by omega)]; omega
+        rw [dist_of_gt (by omega) (by omega)]
+        exact ⟨by omega, fun _ _ => by omega⟩
       · exact absurd h hca
       · exact absurd h hcb
-      · have := hl2 c h
-        rw [dist_of_le (by omega) (by omega)]; omega
+      · rcases hl2 c h with h' | ⟨h', hbf, hcf⟩
+        · rw [dist_of_le (by omega) (by omega)]
+          exact ⟨by omega, fun _ _ => by omega⟩
+        · rw [dist_of_le (by omega) (by omega)]
+          refine ⟨by omega, fun hcf' _ => ?_⟩
+          rw [hcf] at hcf'; exact absurd hcf' (by simp)
     · intro _
       rw [dist_of_le (by omega) (by omega)]; omega
-    · intro h; rw [h] at habp; omega
+    · intro h
+      rw [h] at habk
+      rcases habk with h' | ⟨_, h1, h2⟩
+      · omega
+      · rw [h1] at h2; exact absurd h2 (by simp)
   · -- the successor is the first cut, one turn later
     have hbt : b = bump n s0 := by simpa using hbT
     refine ⟨s0, by simp, by rw [hbt]; rfl, ?_, ?_, ?_⟩
     · intro c hc hca hcs
       have hrc := hrange c hc
-      have hsc : s0.position < c.position := by
+      have hsc : KeyLt s0 c := by
         rcases hhead c hc with h | h
         · exact absurd h hcs
         · exact h
-      rcases (hmemO c).1 (List.mem_append_left _ hc) with h | h | h | h
-      · have := hl1 c h
-        rw [dist_of_gt (by omega) (by omega), hbt, htp]; omega
-      · exact absurd h hca
-      · rw [h, hbt, htp] at hrc; omega
-      · have := hl2 c h
-        rw [hbt, htp] at this; omega
+      have hca' : c.position < a.position := by
+        rcases (hmemO c).1 (List.mem_append_left _ hc) with h | h | h | h
+        · exact hl1 c h
+        · exact absurd h hca
+        · rw [h, hbt, htp] at hrc; omega
+        · have := hl2 c h
+          rw [hbt] at this
+          rcases this with h' | ⟨h', _, _⟩
+          · rw [htp] at h'; omega
+          · rw [htp] at h'; omega
+      rw [dist_of_gt (by omega) (by omega), hbt, htp]
+      rcases hsc with h' | ⟨h', _, hcf⟩
+      · exact ⟨by omega, fun _ _ => by omega⟩
+      · refine ⟨by omega, fun hcf' _ => ?_⟩
+        rw [hcf] at hcf'; exact absurd hcf' (by simp)
     · intro hne
       have hsa : s0.position < a.position := by
         rcases hhead a haS with h | h
         · exact absurd h.symm hne
-        · exact h
+        · rcases h with h' | ⟨_, _, h2⟩
+          · exact h'
+          · rw [haf] at h2; exact absurd h2 (by simp)
       rw [dist_of_gt (by omega) (by omega), hbt, htp]; omega
     · intro h
       rw [hbt, htp, h]; omega
@@ -377,7 +420,6 @@ structure WF (g : Geometry) (w : Nat → Char) (n : Nat) : Prop where
   site_ne : g.site ≠ []
   acgt : g.site.all isUpperAcgt = true
   nonpal : g.site ≠ rcSite g.site
-  oh_pos : 1 ≤ g.oh
   fits : g.site.length ≤ n
   apartF : ∀ p p', p < n → p' < n → occurs w g.site p = true → occurs w g.site p' = true → p ≠ p' →
     g.site.length ≤ dist n p p'
@@ -388,8 +430,8 @@ structure WF (g : Geometry) (w : Nat → Char) (n : Nat) : Prop where
 theorem wf_of_wfLayoutW {g : Geometry} {w : Nat → Char} {n : Nat} (h : wfLayoutW g w n = true) : WF g w n := by
   simp only [wfLayoutW, wfGeometry, noOverlap, pairedApart, Bool.and_eq_true, decide_eq_true_eq, List.all_eq_true,
     List.mem_append, Bool.or_eq_true, beq_iff_eq, bne_iff_ne, ne_eq, ge_iff_le] at h
-  obtain ⟨⟨⟨⟨⟨⟨h1, h2⟩, h3⟩, h4⟩, h5⟩, h6⟩, h7⟩ := h
-  refine ⟨?_, ?_, h3, h4, h5, ?_, ?_, ?_⟩
+  obtain ⟨⟨⟨⟨⟨h1, h2⟩, h3⟩, h5⟩, h6⟩, h7⟩ := h
+  refine ⟨?_, ?_, h3, h5, ?_, ?_, ?_⟩
   · intro h; rw [h] at h1; simp at h1
   · exact List.all_eq_true.2 h2
   · intro p p' hp hp' ho ho' hne
@@ -428,15 +470,6 @@ theorem overhangsCore_circ (name : String) (g : Geometry) (u : Str) (hpal : isPa
   simp only [overhangsCore, enzymeOf, hpal, trimLast_circ, hn0, Bool.and_false, Bool.false_and,
     Bool.false_eq_true, if_false, if_true]
   rfl
-
-theorem dist_self {n : Nat} (hn : 0 < n) (a : Nat) : dist n a a = 0 := by
-  unfold dist
-  rw [show a + n - a = n by omega, Nat.mod_self]
-
-theorem dist_eq_zero {n a b : Nat} (ha : a < n) (hb : b < n) (h : dist n a b = 0) : a = b := by
-  rcases Nat.lt_or_ge b a with hlt | hge
-  · rw [dist_of_gt ha hlt] at h; omega
-  · rw [dist_of_le hb hge] at h; omega
 
 section Facts
 variable {g : Geometry} {u : Str} (hwf : WF g (letter u) u.length)
@@ -505,51 +538,41 @@ theorem circS_rs (c : Nat) :
       rw [this]
       exact List.mem_map.2 ⟨q, hq, rfl⟩
 
-/-- a forward and a reverse cut never coincide inside the quantifier (they would be a pair 0 letters apart) -/
-theorem fwd_rev_ne {p q : Nat} (hp : p ∈ sites (letter u) u.length g.site)
-    (hq : q ∈ sites (letter u) u.length (rcSite g.site)) : fwdCut g u.length p ≠ revCut g u.length q := by
-  intro h
-  have hn := hwf.n_pos
-  have hc : fwdCut g u.length p ∈ fwdCuts g (letter u) u.length := List.mem_map.2 ⟨p, hp, rfl⟩
-  have hr : fwdCut g u.length p ∈ revCuts g (letter u) u.length := by rw [h]; exact List.mem_map.2 ⟨q, hq, rfl⟩
-  have hs : stretch u.length (fwdCuts g (letter u) u.length) (revCuts g (letter u) u.length) (fwdCut g u.length p) = some 0 := by
-    rw [stretch_eq_some_iff]
-    refine ⟨⟨_, hr, dist_self hn _⟩, fun _ _ => Nat.zero_le _, ?_⟩
-    intro c' hc' hne
-    rcases Nat.eq_zero_or_pos (dist u.length (fwdCut g u.length p) c') with h0 | hpos
-    · exact absurd (dist_eq_zero (fwdCut_lt g hn p) (mem_fwdCuts_lt g hn hc') h0).symm hne
-    · exact hpos
-  have := hwf.paired _ hc 0 hs
-  have := hwf.oh_pos
-  omega
-
-theorem circS_inj : ∀ c ∈ circS g u, ∀ d ∈ circS g u, c.position = d.position → c = d := by
-  intro c hc d hd h
+/-- two overhangs of the list with the same position and the same direction are the same overhang -/
+theorem circS_key : ∀ c ∈ circS g u, ∀ d ∈ circS g u, c.position = d.position → c.forward = d.forward → c = d := by
+  intro c hc d hd h hf
   rcases (mem_circS hwf c).1 hc with ⟨p, hp, rfl⟩ | ⟨q, hq, rfl⟩ <;>
     rcases (mem_circS hwf d).1 hd with ⟨p', hp', rfl⟩ | ⟨q', hq', rfl⟩
   · simp only [fwdOh] at h
     have : p = p' := fwdCut_inj g (mem_sites.1 hp).1 (mem_sites.1 hp').1 (by omega)
     rw [this]
-  · simp only [fwdOh, revOh] at h
-    exact absurd (by omega) (fwd_rev_ne hwf hp hq')
-  · simp only [fwdOh, revOh] at h
-    exact absurd (by omega) (fwd_rev_ne hwf hp' hq)
+  · simp [fwdOh, revOh] at hf
+  · simp [fwdOh, revOh] at hf
   · simp only [revOh] at h
     have : q = q' := revCut_inj g (mem_sites.1 hq).1 (mem_sites.1 hq').1 (by omega)
     rw [this]
 
-theorem circS_sorted : (circS g u).Pairwise PosLt := by
-  have h1 : (circS g u).Pairwise PosLe := sortByPos_sorted _
-  have h2 : (circS g u).Pairwise (· ≠ ·) := circS_nodup
-  have h3 := h1.and h2
-  refine h3.imp_of_mem ?_
-  intro a b ha hb hab
-  obtain ⟨hle, hne⟩ := hab
-  unfold PosLe at hle
-  unfold PosLt
-  rcases Int.lt_or_eq_of_le hle with hlt | heq
-  · exact hlt
-  · exact absurd (circS_inj hwf a ha b hb heq) hne
+/-- the list is sorted by position, a forward overhang before a reverse one at the same position
+(the stable sort keeps the forward set, which was appended first, in front) -/
+theorem circS_sorted : (circS g u).Pairwise KeyLt := by
+  refine keyLt_of_keyLe ?_ circS_nodup (circS_key hwf)
+  unfold circS
+  apply sortByPos_keySorted
+  obtain ⟨l', h1, h2⟩ := dedupInto_sublist
+    ((((findAll g.site (u ++ u)).map fun m => (⟨g.oh, (m.2 : Int) + g.skip, true⟩ : Overhang)) ++
+      ((findAll (rcSite g.site) (u ++ u)).map fun m => (⟨g.oh, (m.1 : Int) - g.skip, false⟩ : Overhang))).map
+        (red u.length)) []
+  rw [h1, List.nil_append]
+  refine List.Pairwise.sublist h2 ?_
+  rw [List.pairwise_map, List.pairwise_append]
+  refine ⟨?_, ?_, ?_⟩
+  · rw [List.pairwise_map]
+    exact List.pairwise_of_forall (fun _ _ => Or.inl rfl)
+  · rw [List.pairwise_map]
+    exact List.pairwise_of_forall (fun _ _ => Or.inr rfl)
+  · intro a ha b _
+    obtain ⟨m, _, rfl⟩ := List.mem_map.1 ha
+    exact Or.inl rfl
 
 end Facts
 
@@ -592,22 +615,26 @@ theorem pair_key {g : Geometry} {u : Str} (hwf : WF g (letter u) u.length) {s0 :
     (hab : (a, b) ∈ adjPairs ((s0 :: S') ++ [bump u.length s0])) :
     (pieceOf (u ++ u) (a, b)).map (triple g.oh) = fragOf g u a ∧
     (∀ f, pieceOf (u ++ u) (a, b) = some f → 2 * g.oh ≤ f.length) ∧
-    (0 ≤ a.position ∧ a.position ≤ b.position ∧ b.position ≤ ((u ++ u).length : Int)) := by
+    (a.forward = true → 0 ≤ a.position ∧ a.position ≤ b.position ∧ b.position ≤ ((u ++ u).length : Int)) := by
   have hn := hwf.n_pos
-  have hsorted : (s0 :: S').Pairwise PosLt := hS ▸ circS_sorted hwf
+  have hsorted : (s0 :: S').Pairwise KeyLt := hS ▸ circS_sorted hwf
   have hrange : ∀ o ∈ s0 :: S', 0 ≤ o.position ∧ o.position < u.length := hS ▸ circS_range hwf
-  have hinj : ∀ c ∈ s0 :: S', ∀ d ∈ s0 :: S', c.position = d.position → c = d := hS ▸ circS_inj hwf
+  have hinj : ∀ c ∈ s0 :: S', ∀ d ∈ s0 :: S', c.position = d.position → c.forward = d.forward → c = d :=
+    hS ▸ circS_key hwf
   have hfs : ∀ c, c ∈ fwdCuts g (letter u) u.length ↔ ∃ o ∈ s0 :: S', o.forward = true ∧ o.position = (c : Int) :=
     hS ▸ circS_fs hwf
   have hrs : ∀ c, c ∈ revCuts g (letter u) u.length ↔ ∃ o ∈ s0 :: S', o.forward = false ∧ o.position = (c : Int) :=
     hS ▸ circS_rs hwf
-  obtain ⟨haS, hlt, hb2, b', hb'S, hb'f, K, D, E⟩ := adjacent_facts hsorted hrange hab
-  have hra := hrange a haS
-  have hvalid : 0 ≤ a.position ∧ a.position ≤ b.position ∧ b.position ≤ ((u ++ u).length : Int) := by
-    refine ⟨hra.1, by omega, ?_⟩
+  have hvalid : a.forward = true → 0 ≤ a.position ∧ a.position ≤ b.position ∧ b.position ≤ ((u ++ u).length : Int) := by
+    intro haf
+    obtain ⟨haS, hlt, hb2, _⟩ := adjacent_facts hsorted hrange hab haf
+    have hra := hrange a haS
+    refine ⟨hra.1, hlt, ?_⟩
     simp only [List.length_append]; push_cast; omega
   by_cases haf : a.forward = true
-  · have hst := stretch_from_facts hn hfs hrs hinj hrange haS hb'S haf K D E
+  · obtain ⟨haS, hlt, hb2, b', hb'S, hb'f, K, D, E⟩ := adjacent_facts hsorted hrange hab haf
+    have hra := hrange a haS
+    have hst := stretch_from_facts hn hfs hrs hinj hrange haS hb'S haf K D E
     rw [hb'f] at hst
     by_cases hbf : b.forward = false
     · rw [if_pos hbf] at hst
@@ -667,7 +694,7 @@ theorem circS_fragments_perm {g : Geometry} {u : Str} (hwf : WF g (letter u) u.l
     have hb' := (List.mem_filter.1 hb).1
     have := circS_range hwf a ha'
     have := circS_range hwf b hb'
-    exact circS_inj hwf a ha' b hb' (by omega)
+    exact circS_key hwf a ha' b hb' (by omega) (by rw [(List.mem_filter.1 ha).2, (List.mem_filter.1 hb).2])
   · exact fwdCuts_nodup _ _ _
 
 /-- **The circular case on the upper-cased word**: the model's fragments are the spec's, as a multiset. -/
@@ -693,8 +720,8 @@ theorem cutCore_circular (name : String) (g : Geometry) (u : Str) (hwf : WF g (l
       apply pairLoop_eq
       · apply breakOK_snoc
         intro o ho; have := hrange o ho; omega
-      · intro p hp _ _
-        exact (hkey p hp).2.2
+      · intro p hp h1 _
+        exact (hkey p hp).2.2 h1
     have hall : allSome (((adjPairs ((s0 :: S') ++ [bump u.length s0])).filterMap (pieceOf (u ++ u))).map (toFragment g.oh)) =
         some (((adjPairs ((s0 :: S') ++ [bump u.length s0])).filterMap (pieceOf (u ++ u))).map
           fun f => (⟨(f.drop g.oh).take (f.length - 2 * g.oh), f.take g.oh, f.drop (f.length - g.oh)⟩ : Fragment)) := by
